@@ -56,6 +56,49 @@ def _report(prop, tier, seed, s, rule, extra=None):
 # --------------------------------------------------------------------------
 # C14: inlining
 # --------------------------------------------------------------------------
+def _nullable(cg):
+    nul = set()
+    ch = True
+    while ch:
+        ch = False
+        for p in cg["prods"]:
+            if p["lhs"] not in nul and all(x in nul for x in p["rhs"]):
+                nul.add(p["lhs"])
+                ch = True
+    return nul
+
+
+def _inline_shape(rng, i):
+    """an #[inline] candidate I with a fallible alternative followed by plain ones, used twice in one
+    alternative whose own action is infallible, with locations between the uses"""
+    ts = ["a", "b", "c"]
+    t1, t2 = rng.sample(ts, 2)
+    prods = [{"lhs": "S", "rhs": ["I", t1, "I"]}, {"lhs": "S", "rhs": [t2, "I"]},
+             {"lhs": "I", "rhs": [t2, t1]}, {"lhs": "I", "rhs": [t1]}, {"lhs": "I", "rhs": [t2, t2, "A"]},
+             {"lhs": "A", "rhs": [t1]}]
+    if rng.random() < 0.5:
+        prods.append({"lhs": "S", "rhs": ["S", "c" if "c" not in (t1, t2) else t2, "I", "I"]})
+    g = {"id": "r%05d" % i, "ts": [t for t in ts if any(t in p["rhs"] for p in prods)], "nts": ["S", "I", "A"],
+         "starts": ["S"], "prods": prods}
+    cg = core.annotate(g, rng, p_loc=0.6, p_fallible=0.0)
+    cg["kinds"] = {"S": "V", "I": "V", "A": "V"}
+    first = True
+    for p in cg["prods"]:
+        if p["form"] in ("none", "useru"):
+            p["form"] = "user"
+        for s_ in p["syms"]:
+            s_["sel"] = True
+        if p["lhs"] == "I" and first:
+            first = False
+            p["form"] = "fallible"
+            j = [k for k, s_ in enumerate(p["syms"]) if s_["k"] == "sym"][0]
+            p["fail"] = {"on": True, "s": j + 1, "m": 3, "r": rng.randrange(3)}
+        elif p["form"] == "fallible":
+            p["form"] = "user"
+            p["fail"] = {"on": False}
+    return cg
+
+
 def inline_population(tier, seed):
     rng = random.Random(seed * 7 + 1401)
     n_ast = 70 if tier == "quick" else 400
@@ -64,18 +107,29 @@ def inline_population(tier, seed):
     tries = 0
     while len([1 for cg in out if cg["id"].endswith("v0")]) < n_ast and tries < n_ast * 20:
         tries += 1
-        g = gen.random_grammar(rng, i, max_nt=4, max_t=3, max_prods=8, max_rhs=3,
-                               shape=rng.choice(["layered", "lists", "plain", "layered"]))
-        if rng.random() < 0.3:
-            g = core.add_markers(g, rng)
-        cg = core.annotate(g, rng, p_loc=0.0, p_fallible=0.25)
+        r = rng.random()
+        if r < 0.12:
+            cg = _inline_shape(rng, i)
+        else:
+            g = gen.random_grammar(rng, i, max_nt=4, max_t=3, max_prods=8, max_rhs=3,
+                                   shape=rng.choice(["layered", "lists", "plain", "layered"]))
+            if rng.random() < 0.3:
+                g = core.add_markers(g, rng)
+            # locations are compared too, except next to inlined nonterminals that can be empty (the property
+            # excludes those): grammars with @L/@R only inline nonterminals that derive at least one token
+            with_loc = rng.random() < 0.5
+            cg = core.annotate(g, rng, p_loc=0.35 if with_loc else 0.0, p_fallible=0.25)
+        has_loc = any(s_["k"] in ("L", "R") for p in cg["prods"] for s_ in p["syms"])
         cand = core.inlinable(cg)
         # only nonterminals that are actually used somewhere are interesting
         cand = [nt for nt in cand if any(nt in p["rhs"] for p in cg["prods"])]
+        if has_loc:
+            nul = _nullable(cg)
+            cand = [nt for nt in cand if nt not in nul]
         if not cand:
             continue
         subsets = [()]
-        allsub = [c for r in range(1, len(cand) + 1) for c in itertools.combinations(cand, r)]
+        allsub = [c for r_ in range(1, len(cand) + 1) for c in itertools.combinations(cand, r_)]
         rng.shuffle(allsub)
         subsets += allsub[: (3 if tier == "quick" else 7)]
         for v, sub in enumerate(subsets):
@@ -104,7 +158,9 @@ def check_C14(tier, seed):
         # a disagreement on the un-inlined rendering is not about inlining: other checks own it; say so
         log("C14: %d disagreement(s) on un-inlined variants (owned by C01/C02/...)" % len(base_dis))
     return _report("C14", tier, seed, s,
-                   "random annotated grammars (fallible actions, all binding forms, no @L/@R); for each, the un-inlined rendering "
+                   "random annotated grammars (fallible actions, all binding forms, mid-rule markers; @L/@R in half of them, then "
+                   "only nonterminals that cannot be empty are inlined) and shapes with an inline nonterminal used twice in one "
+                   "alternative; for each, the un-inlined rendering "
                    "and several subsets of its non-recursive non-pub nonterminals marked #[inline]; Sem.tla parses the grammar as "
                    "written and defers the actions of inlined nonterminals to their host (left to right, first failure wins); "
                    "each accepted variant is run on every input up to the bound: accept/reject, value, user error, action order",
